@@ -1,107 +1,1060 @@
-// temporary script-driven probe (replaced by the real harness)
+//! C08 / C10 — read queries against the graph-pattern semantics, and physical configurations.
+//!
+//! Builds generated graphs through the public API, renders generated abstract core queries in
+//! GQL / Cypher / Gremlin / GraphQL, runs them through `Session::execute*`, dumps the optimized
+//! logical plan each front end produced (translate -> bind -> optimize, the same calls as
+//! session.rs) as a Coq term of `GV.Query.Pattern.lop`, and emits per execution
+//!   coq  : chk_run   (physical model of the dumped plan == engine rows)        correspondence
+//!   orc  : orc_answer (engine rows == declarative answer of the abstract query) C08 oracle
+//!          orc_same   (two executions of one text agree)                        C10 oracle
+//!   ks   : candidate finding classes [[id, coq term], ...] (decided in Coq by the check)
 use grafeo_common::types::{EdgeId, NodeId, Value};
+use grafeo_engine::query::plan::*;
+use grafeo_engine::query::{binder::Binder, optimizer::Optimizer};
 use grafeo_engine::{Config, GrafeoDB};
-use gv_harness::catch;
+use gv_harness::*;
+use std::collections::{BTreeMap, BTreeSet};
+use std::fmt::Write as _;
+use std::io::Write as _;
 
-fn pv(s: &str) -> Value {
-    if s == "null" {
-        Value::Null
-    } else if s == "true" {
-        Value::Bool(true)
-    } else if s == "false" {
-        Value::Bool(false)
-    } else if let Some(x) = s.strip_suffix('f') {
-        Value::Float64(x.parse().unwrap())
-    } else if let Some(x) = s.strip_prefix('\'') {
-        Value::String(x.trim_end_matches('\'').into())
+// ------------------------------------------------------------------------------------------ values
+#[derive(Clone, Debug, PartialEq)]
+enum V {
+    Null,
+    Bool(bool),
+    Int(i64),
+    /// halves: value = h / 2 (exact in f64)
+    Half(i64),
+    Str(String),
+}
+impl V {
+    fn to_value(&self) -> Value {
+        match self {
+            V::Null => Value::Null,
+            V::Bool(b) => Value::Bool(*b),
+            V::Int(i) => Value::Int64(*i),
+            V::Half(h) => Value::Float64(*h as f64 / 2.0),
+            V::Str(s) => Value::String(s.as_str().into()),
+        }
+    }
+    fn coq(&self) -> String {
+        value_coq(&self.to_value()).unwrap()
+    }
+    /// literal in GQL / Cypher text
+    fn lit(&self) -> String {
+        match self {
+            V::Null => "null".into(),
+            V::Bool(b) => format!("{b}"),
+            V::Int(i) => format!("{i}"),
+            V::Half(h) => format!("{:.1}", *h as f64 / 2.0),
+            V::Str(s) => format!("'{s}'"),
+        }
+    }
+}
+fn cstr(s: &str) -> Option<String> {
+    if s.chars().all(|c| c.is_ascii_alphanumeric() || "_.()* -".contains(c)) {
+        Some(format!("\"{s}\"%string"))
     } else {
-        Value::Int64(s.parse().unwrap())
+        None
+    }
+}
+fn cs(s: &str) -> String {
+    cstr(s).unwrap_or_else(|| "\"?\"%string".into())
+}
+/// exact rational of a finite f64: (n, d) with d = 2^k, lowest terms
+fn f64_ratio(f: f64) -> Option<(i128, i128)> {
+    if !f.is_finite() {
+        return None;
+    }
+    if f == 0.0 {
+        return Some((0, 1));
+    }
+    let bits = f.to_bits();
+    let sign: i128 = if bits >> 63 == 1 { -1 } else { 1 };
+    let exp = ((bits >> 52) & 0x7ff) as i64;
+    let frac = (bits & ((1u64 << 52) - 1)) as i128;
+    let (mut m, mut e) = if exp == 0 { (frac, -1074i64) } else { (frac | (1i128 << 52), exp - 1075) };
+    while m % 2 == 0 && e < 0 {
+        m /= 2;
+        e += 1;
+    }
+    if e >= 0 {
+        if e > 60 {
+            return None;
+        }
+        Some((sign * (m << e), 1))
+    } else {
+        if -e > 100 {
+            return None;
+        }
+        Some((sign * m, 1i128 << (-e)))
+    }
+}
+fn value_coq(v: &Value) -> Option<String> {
+    Some(match v {
+        Value::Null => "VNull".into(),
+        Value::Bool(b) => format!("(VBool {b})"),
+        Value::Int64(i) => format!("(VInt ({i}))"),
+        Value::Float64(f) => {
+            let (n, d) = f64_ratio(*f)?;
+            format!("(VFlt ({n}) ({d}))")
+        }
+        Value::String(s) => format!("(VStr {})", cstr(s.as_str())?),
+        Value::List(l) => {
+            let mut items = vec![];
+            for x in l.iter() {
+                items.push(value_coq(x)?);
+            }
+            format!("(VList {})", coq::list(items))
+        }
+        _ => return None,
+    })
+}
+fn opt_s(o: &Option<String>) -> String {
+    match o {
+        Some(s) => format!("(Some {})", cs(s)),
+        None => "None".into(),
     }
 }
 
-fn main() {
-    let path = std::env::args().nth(1).unwrap();
-    let txt = std::fs::read_to_string(path).unwrap();
-    let mut db = GrafeoDB::new_in_memory();
-    let mut nodes: Vec<NodeId> = vec![];
-    let mut edges: Vec<EdgeId> = vec![];
-    for line in txt.lines() {
-        let line = line.trim();
-        if line.is_empty() || line.starts_with('#') {
-            continue;
-        }
-        let (cmd, rest) = line.split_once(' ').unwrap_or((line, ""));
-        match cmd {
-            "new" => {
-                db = if rest.contains("nofact") {
-                    GrafeoDB::with_config(Config::in_memory().without_factorized_execution()).unwrap()
-                } else {
-                    GrafeoDB::new_in_memory()
-                };
-                nodes.clear();
-                edges.clear();
-                println!("--- new {rest}");
-            }
-            "node" => {
-                let mut it = rest.split_whitespace();
-                let labels: Vec<&str> = it.next().unwrap().split(',').filter(|l| *l != "-").collect();
-                let n = db.create_node(&labels);
-                for kv in it {
-                    let (k, v) = kv.split_once('=').unwrap();
-                    db.set_node_property(n, k, pv(v));
-                }
-                nodes.push(n);
-            }
-            "edge" => {
-                let mut it = rest.split_whitespace();
-                let s: usize = it.next().unwrap().parse().unwrap();
-                let d: usize = it.next().unwrap().parse().unwrap();
-                let t = it.next().unwrap();
-                let e = db.create_edge(nodes[s], nodes[d], t);
-                for kv in it {
-                    let (k, v) = kv.split_once('=').unwrap();
-                    db.set_edge_property(e, k, pv(v));
-                }
-                edges.push(e);
-            }
-            "set" => {
-                let mut it = rest.split_whitespace();
-                let s: usize = it.next().unwrap().parse().unwrap();
-                let (k, v) = it.next().unwrap().split_once('=').unwrap();
-                db.set_node_property(nodes[s], k, pv(v));
-            }
-            "delnode" => {
-                let s: usize = rest.trim().parse().unwrap();
-                println!("delnode -> {}", db.delete_node(nodes[s]));
-            }
-            "deledge" => {
-                let s: usize = rest.trim().parse().unwrap();
-                println!("deledge -> {}", db.delete_edge(edges[s]));
-            }
-            "index" => db.create_property_index(rest.trim()),
-            "dropindex" => {
-                db.drop_property_index(rest.trim());
-            }
-            "gql" | "cypher" | "gremlin" | "graphql" => {
-                let s = db.session();
-                let q = rest.to_string();
-                let c = cmd.to_string();
-                let r = catch(std::panic::AssertUnwindSafe(|| match c.as_str() {
-                    "gql" => s.execute(&q),
-                    "cypher" => s.execute_cypher(&q),
-                    "gremlin" => s.execute_gremlin(&q),
-                    _ => s.execute_graphql(&q),
-                }));
-                match r {
-                    Ok(Ok(r)) => {
-                        let rows: Vec<String> = r.rows.iter().take(40).map(|row| format!("{:?}", row)).collect();
-                        println!("{cmd:8} {q}\n   -> cols {:?} {} rows: {}", r.columns, r.rows.len(), rows.join(" "));
-                    }
-                    Ok(Err(e)) => println!("{cmd:8} {q}\n   -> ERR {e}"),
-                    Err(p) => println!("{cmd:8} {q}\n   -> PANIC {p}"),
-                }
-            }
-            _ => println!("?? {line}"),
+// ------------------------------------------------------------------------------------------ world
+#[derive(Clone, Debug)]
+struct GNode {
+    id: u64,
+    labels: Vec<String>,
+    props: BTreeMap<String, V>,
+}
+#[derive(Clone, Debug)]
+struct GEdge {
+    id: u64,
+    src: u64,
+    dst: u64,
+    ty: String,
+    props: BTreeMap<String, V>,
+}
+/// a build script: replayable on a fresh database (equal graphs under different configurations)
+#[derive(Clone, Debug)]
+enum Op {
+    Node(Vec<String>, Vec<(String, V)>),
+    Edge(usize, usize, String, Vec<(String, V)>), // indexes into the node list of the script
+    SetNode(usize, String, V),
+    DelEdge(usize),
+    DelNode(usize), // detach: incident edges are deleted first
+    Index(String),
+    DropIndex(String),
+}
+struct World {
+    db: GrafeoDB,
+    factorized: bool,
+    nids: Vec<NodeId>,
+    eids: Vec<EdgeId>,
+    nodes: BTreeMap<u64, GNode>,
+    edges: BTreeMap<u64, GEdge>,
+    indexed: BTreeSet<String>,
+    zcols: BTreeMap<String, (Vec<V>, bool)>,
+}
+impl World {
+    fn new(factorized: bool) -> World {
+        let db = if factorized {
+            GrafeoDB::new_in_memory()
+        } else {
+            GrafeoDB::with_config(Config::in_memory().without_factorized_execution()).expect("db")
+        };
+        World {
+            db,
+            factorized,
+            nids: vec![],
+            eids: vec![],
+            nodes: BTreeMap::new(),
+            edges: BTreeMap::new(),
+            indexed: BTreeSet::new(),
+            zcols: BTreeMap::new(),
         }
     }
+    fn build(factorized: bool, ops: &[Op]) -> World {
+        let mut w = World::new(factorized);
+        for o in ops {
+            w.apply(o);
+        }
+        w
+    }
+    fn set_node(&mut self, id: NodeId, k: &str, v: &V) {
+        self.db.set_node_property(id, k, v.to_value());
+        self.nodes.get_mut(&id.0).unwrap().props.insert(k.to_string(), v.clone());
+        self.zcols.entry(k.to_string()).or_insert((vec![], false)).0.push(v.clone());
+    }
+    fn del_edge_id(&mut self, e: EdgeId) {
+        if self.edges.remove(&e.0).is_some() {
+            self.db.delete_edge(e);
+        }
+    }
+    fn apply(&mut self, o: &Op) {
+        match o {
+            Op::Node(labels, props) => {
+                let ls: Vec<&str> = labels.iter().map(|s| s.as_str()).collect();
+                let id = self.db.create_node(&ls);
+                self.nids.push(id);
+                self.nodes.insert(id.0, GNode { id: id.0, labels: labels.clone(), props: BTreeMap::new() });
+                for (k, v) in props {
+                    self.set_node(id, k, v);
+                }
+            }
+            Op::Edge(s, d, ty, props) => {
+                let (s, d) = (self.nids[*s], self.nids[*d]);
+                if !self.nodes.contains_key(&s.0) || !self.nodes.contains_key(&d.0) {
+                    return;
+                }
+                let id = self.db.create_edge(s, d, ty);
+                self.eids.push(id);
+                let mut pm = BTreeMap::new();
+                for (k, v) in props {
+                    self.db.set_edge_property(id, k, v.to_value());
+                    pm.insert(k.clone(), v.clone());
+                }
+                self.edges.insert(id.0, GEdge { id: id.0, src: s.0, dst: d.0, ty: ty.clone(), props: pm });
+            }
+            Op::SetNode(i, k, v) => {
+                let id = self.nids[*i];
+                if self.nodes.contains_key(&id.0) {
+                    self.set_node(id, k, v);
+                }
+            }
+            Op::DelEdge(i) => {
+                if let Some(e) = self.eids.get(*i).copied() {
+                    self.del_edge_id(e);
+                }
+            }
+            Op::DelNode(i) => {
+                let id = self.nids[*i];
+                if !self.nodes.contains_key(&id.0) {
+                    return;
+                }
+                let inc: Vec<u64> =
+                    self.edges.values().filter(|e| e.src == id.0 || e.dst == id.0).map(|e| e.id).collect();
+                for e in inc {
+                    self.del_edge_id(EdgeId(e));
+                }
+                let n = self.nodes.remove(&id.0).unwrap();
+                for k in n.props.keys() {
+                    if let Some(z) = self.zcols.get_mut(k) {
+                        z.1 = true;
+                    }
+                }
+                self.db.delete_node(id);
+            }
+            Op::Index(k) => {
+                self.db.create_property_index(k);
+                self.indexed.insert(k.clone());
+            }
+            Op::DropIndex(k) => {
+                self.db.drop_property_index(k);
+                self.indexed.remove(k);
+            }
+        }
+    }
+    fn store_coq(&self) -> String {
+        let props = |p: &BTreeMap<String, V>| coq::list(p.iter().map(|(k, v)| format!("({}, {})", cs(k), v.coq())));
+        let ns = coq::list(self.nodes.values().map(|n| {
+            format!("mkNode ({}) {} {}", n.id, coq::list(n.labels.iter().map(|l| cs(l))), props(&n.props))
+        }));
+        let es = coq::list(self.edges.values().map(|e| {
+            format!("mkEdge ({}) ({}) ({}) {} {}", e.id, e.src, e.dst, cs(&e.ty), props(&e.props))
+        }));
+        let ix = coq::list(self.indexed.iter().map(|k| cs(k)));
+        let zc = coq::list(self.zcols.iter().map(|(k, (h, d))| {
+            format!("({}, mkZcol {} {})", cs(k), coq::list(h.iter().map(|v| v.coq())), d)
+        }));
+        format!("(mkStore {ns} {es} {ix} {zc})")
+    }
+    fn describe(&self) -> String {
+        let mut s = String::new();
+        for n in self.nodes.values() {
+            let _ = write!(s, "n{}:{}{:?} ", n.id, n.labels.join(":"), n.props);
+        }
+        for e in self.edges.values() {
+            let _ = write!(s, "e{}:{}-{}->{}{:?} ", e.id, e.src, e.ty, e.dst, e.props);
+        }
+        if !self.indexed.is_empty() {
+            let _ = write!(s, "idx{:?} ", self.indexed);
+        }
+        let _ = write!(s, "fact={}", self.factorized);
+        s
+    }
+    fn has_selfloop_or_parallel(&self) -> bool {
+        let mut seen = BTreeSet::new();
+        for e in self.edges.values() {
+            if e.src == e.dst || !seen.insert((e.src, e.dst)) {
+                return true;
+            }
+        }
+        false
+    }
+    fn acyclic_forward(&self) -> bool {
+        self.edges.values().all(|e| e.src < e.dst)
+    }
+}
+
+// ------------------------------------------------------------------------------------------ plan dump
+fn expr_coq(e: &LogicalExpression) -> Option<String> {
+    Some(match e {
+        LogicalExpression::Literal(v) => format!("(ELit {})", value_coq(v)?),
+        LogicalExpression::Variable(x) => format!("(EVar {})", cstr(x)?),
+        LogicalExpression::Property { variable, property } => format!("(EProp {} {})", cstr(variable)?, cstr(property)?),
+        LogicalExpression::Binary { left, op, right } => {
+            if let (BinaryOp::In, LogicalExpression::Literal(Value::String(l)), LogicalExpression::Labels(x)) =
+                (op, left.as_ref(), right.as_ref())
+            {
+                return Some(format!("(ELabelIn {} {})", cstr(l.as_str())?, cstr(x)?));
+            }
+            let (a, b) = (expr_coq(left)?, expr_coq(right)?);
+            match op {
+                BinaryOp::Eq => format!("(ECmp OEq {a} {b})"),
+                BinaryOp::Ne => format!("(ECmp ONe {a} {b})"),
+                BinaryOp::Lt => format!("(ECmp OLt {a} {b})"),
+                BinaryOp::Le => format!("(ECmp OLe {a} {b})"),
+                BinaryOp::Gt => format!("(ECmp OGt {a} {b})"),
+                BinaryOp::Ge => format!("(ECmp OGe {a} {b})"),
+                BinaryOp::And => format!("(EAnd {a} {b})"),
+                BinaryOp::Or => format!("(EOr {a} {b})"),
+                _ => return None,
+            }
+        }
+        LogicalExpression::Unary { op, operand } => {
+            let a = expr_coq(operand)?;
+            match op {
+                UnaryOp::Not => format!("(ENot {a})"),
+                UnaryOp::IsNull => format!("(EIsNull {a})"),
+                UnaryOp::IsNotNull => format!("(EIsNotNull {a})"),
+                _ => return None,
+            }
+        }
+        LogicalExpression::FunctionCall { name, args, .. } => {
+            if name.eq_ignore_ascii_case("haslabel") && args.len() == 2 {
+                if let (LogicalExpression::Variable(x), LogicalExpression::Literal(Value::String(l))) = (&args[0], &args[1]) {
+                    return Some(format!("(EHasLabel {} {})", cstr(x)?, cstr(l.as_str())?));
+                }
+            }
+            return None;
+        }
+        _ => return None,
+    })
+}
+fn items_coq<'a, I: Iterator<Item = (&'a LogicalExpression, &'a Option<String>)>>(it: I) -> Option<String> {
+    let mut v = vec![];
+    for (e, a) in it {
+        if let Some(a) = a {
+            cstr(a)?;
+        }
+        v.push(format!("({}, {})", expr_coq(e)?, opt_s(a)));
+    }
+    Some(coq::list(v))
+}
+fn plan_coq(p: &LogicalOperator) -> Option<String> {
+    Some(match p {
+        LogicalOperator::NodeScan(s) => {
+            if s.input.is_some() {
+                return None;
+            }
+            if let Some(l) = &s.label {
+                cstr(l)?;
+            }
+            format!("(LScan {} {})", cstr(&s.variable)?, opt_s(&s.label))
+        }
+        LogicalOperator::Expand(x) => {
+            if x.path_alias.is_some() {
+                return None;
+            }
+            let d = match x.direction {
+                ExpandDirection::Outgoing => "Out",
+                ExpandDirection::Incoming => "In",
+                ExpandDirection::Both => "Both",
+            };
+            if x.min_hops > 50 || x.max_hops.is_some_and(|m| m > 50) {
+                return None;
+            }
+            let mx = match x.max_hops {
+                Some(m) => format!("(Some {}%nat)", m),
+                None => "None".into(),
+            };
+            if let Some(t) = &x.edge_type {
+                cstr(t)?;
+            }
+            if let Some(t) = &x.edge_variable {
+                cstr(t)?;
+            }
+            format!(
+                "(LExpand {} {} {} {} {} {}%nat {} {})",
+                cstr(&x.from_variable)?,
+                cstr(&x.to_variable)?,
+                opt_s(&x.edge_variable),
+                d,
+                opt_s(&x.edge_type),
+                x.min_hops,
+                mx,
+                plan_coq(&x.input)?
+            )
+        }
+        LogicalOperator::Filter(f) => format!("(LFilter {} {})", expr_coq(&f.predicate)?, plan_coq(&f.input)?),
+        LogicalOperator::Return(r) => format!(
+            "(LReturn {} {} {})",
+            items_coq(r.items.iter().map(|i| (&i.expression, &i.alias)))?,
+            r.distinct,
+            plan_coq(&r.input)?
+        ),
+        LogicalOperator::Project(r) => format!(
+            "(LProject {} {})",
+            items_coq(r.projections.iter().map(|i| (&i.expression, &i.alias)))?,
+            plan_coq(&r.input)?
+        ),
+        LogicalOperator::Sort(s) => {
+            let mut ks = vec![];
+            for k in &s.keys {
+                ks.push(format!("({}, {})", expr_coq(&k.expression)?, k.order == SortOrder::Descending));
+            }
+            format!("(LSort {} {})", coq::list(ks), plan_coq(&s.input)?)
+        }
+        LogicalOperator::Skip(s) => {
+            if s.count > 4000 {
+                return None;
+            }
+            format!("(LSkip {}%nat {})", s.count, plan_coq(&s.input)?)
+        }
+        LogicalOperator::Limit(s) => {
+            if s.count > 4000 {
+                return None;
+            }
+            format!("(LLimit {}%nat {})", s.count, plan_coq(&s.input)?)
+        }
+        LogicalOperator::Distinct(d) => {
+            if d.columns.is_some() {
+                return None;
+            }
+            format!("(LDistinct {})", plan_coq(&d.input)?)
+        }
+        LogicalOperator::Aggregate(a) => {
+            if a.having.is_some() {
+                return None;
+            }
+            let mut gb = vec![];
+            for g in &a.group_by {
+                gb.push(expr_coq(g)?);
+            }
+            let mut ags = vec![];
+            for x in &a.aggregates {
+                let f = match x.function {
+                    AggregateFunction::Count => "ACount",
+                    AggregateFunction::CountNonNull => "ACountNN",
+                    AggregateFunction::Sum => "ASum",
+                    AggregateFunction::Avg => "AAvg",
+                    AggregateFunction::Min => "AMin",
+                    AggregateFunction::Max => "AMax",
+                    AggregateFunction::Collect => "ACollect",
+                    _ => return None,
+                };
+                let arg = match &x.expression {
+                    Some(e) => format!("(Some {})", expr_coq(e)?),
+                    None => "None".into(),
+                };
+                if let Some(a) = &x.alias {
+                    cstr(a)?;
+                }
+                ags.push(format!("(mkAgg {f} {arg} {} {})", x.distinct, opt_s(&x.alias)));
+            }
+            format!("(LAggregate {} {} {})", coq::list(gb), coq::list(ags), plan_coq(&a.input)?)
+        }
+        _ => return None,
+    })
+}
+
+// ------------------------------------------------------------------------------------------ abstract queries
+#[derive(Clone, Copy, Debug, PartialEq)]
+enum Dir {
+    Out,
+    In,
+    Both,
+}
+#[derive(Clone, Debug)]
+struct NPat {
+    var: String,
+    labels: Vec<String>,
+}
+#[derive(Clone, Debug, PartialEq)]
+enum HLen {
+    One,
+    Var(u32, Option<u32>),
+}
+#[derive(Clone, Debug)]
+struct Hop {
+    dir: Dir,
+    ty: Option<String>,
+    evar: Option<String>,
+    len: HLen,
+    to: NPat,
+}
+#[derive(Clone, Copy, Debug, PartialEq)]
+enum Cmp {
+    Eq,
+    Ne,
+    Lt,
+    Le,
+    Gt,
+    Ge,
+}
+#[derive(Clone, Debug)]
+enum Ex {
+    Lit(V),
+    Var(String),
+    Prop(String, String),
+    Cmp(Cmp, Box<Ex>, Box<Ex>),
+    And(Box<Ex>, Box<Ex>),
+    Or(Box<Ex>, Box<Ex>),
+    Not(Box<Ex>),
+    IsNull(Box<Ex>),
+    IsNotNull(Box<Ex>),
+}
+#[derive(Clone, Copy, Debug, PartialEq)]
+enum AggFn {
+    Count,
+    Sum,
+    Avg,
+    Min,
+    Max,
+    Collect,
+}
+#[derive(Clone, Debug)]
+struct Agg {
+    f: AggFn,
+    arg: Ex,
+}
+#[derive(Clone, Debug)]
+enum Ret {
+    Plain(Vec<Ex>, bool),
+    Agg(Vec<Ex>, Vec<Agg>),
+}
+#[derive(Clone, Debug)]
+struct Query {
+    start: NPat,
+    hops: Vec<Hop>,
+    wher: Option<Ex>,
+    ret: Ret,
+    order: Vec<(Ex, bool)>, // OEnv keys (expression over pattern variables, descending?)
+    skip: Option<usize>,
+    limit: Option<usize>,
+}
+impl Cmp {
+    fn coq(self) -> &'static str {
+        match self {
+            Cmp::Eq => "OEq",
+            Cmp::Ne => "ONe",
+            Cmp::Lt => "OLt",
+            Cmp::Le => "OLe",
+            Cmp::Gt => "OGt",
+            Cmp::Ge => "OGe",
+        }
+    }
+    fn text(self) -> &'static str {
+        match self {
+            Cmp::Eq => "=",
+            Cmp::Ne => "<>",
+            Cmp::Lt => "<",
+            Cmp::Le => "<=",
+            Cmp::Gt => ">",
+            Cmp::Ge => ">=",
+        }
+    }
+}
+impl Ex {
+    fn coq(&self) -> String {
+        match self {
+            Ex::Lit(v) => format!("(ELit {})", v.coq()),
+            Ex::Var(x) => format!("(EVar {})", cs(x)),
+            Ex::Prop(x, k) => format!("(EProp {} {})", cs(x), cs(k)),
+            Ex::Cmp(o, a, b) => format!("(ECmp {} {} {})", o.coq(), a.coq(), b.coq()),
+            Ex::And(a, b) => format!("(EAnd {} {})", a.coq(), b.coq()),
+            Ex::Or(a, b) => format!("(EOr {} {})", a.coq(), b.coq()),
+            Ex::Not(a) => format!("(ENot {})", a.coq()),
+            Ex::IsNull(a) => format!("(EIsNull {})", a.coq()),
+            Ex::IsNotNull(a) => format!("(EIsNotNull {})", a.coq()),
+        }
+    }
+    /// GQL / Cypher text
+    fn text(&self) -> String {
+        match self {
+            Ex::Lit(v) => v.lit(),
+            Ex::Var(x) => x.clone(),
+            Ex::Prop(x, k) => format!("{x}.{k}"),
+            Ex::Cmp(o, a, b) => format!("{} {} {}", a.text(), o.text(), b.text()),
+            Ex::And(a, b) => format!("({} AND {})", a.text(), b.text()),
+            Ex::Or(a, b) => format!("({} OR {})", a.text(), b.text()),
+            Ex::Not(a) => format!("NOT ({})", a.text()),
+            Ex::IsNull(a) => format!("{} IS NULL", a.text()),
+            Ex::IsNotNull(a) => format!("{} IS NOT NULL", a.text()),
+        }
+    }
+    fn has_isnull(&self) -> bool {
+        match self {
+            Ex::IsNull(_) | Ex::IsNotNull(_) => true,
+            Ex::Cmp(_, a, b) | Ex::And(a, b) | Ex::Or(a, b) => a.has_isnull() || b.has_isnull(),
+            Ex::Not(a) => a.has_isnull(),
+            _ => false,
+        }
+    }
+}
+impl NPat {
+    fn coq(&self) -> String {
+        format!("(mkNP {} {})", cs(&self.var), coq::list(self.labels.iter().map(|l| cs(l))))
+    }
+    fn text(&self) -> String {
+        let mut s = format!("({}", self.var);
+        for l in &self.labels {
+            let _ = write!(s, ":{l}");
+        }
+        s.push(')');
+        s
+    }
+}
+impl Query {
+    fn coq(&self) -> String {
+        let hops = coq::list(self.hops.iter().map(|h| {
+            let d = match h.dir {
+                Dir::Out => "Out",
+                Dir::In => "In",
+                Dir::Both => "Both",
+            };
+            let len = match &h.len {
+                HLen::One => "HOne".to_string(),
+                HLen::Var(a, Some(b)) => format!("(HVar {a}%nat (Some {b}%nat))"),
+                HLen::Var(a, None) => format!("(HVar {a}%nat None)"),
+            };
+            format!("mkHop {d} {} {} {len} {}", opt_s(&h.ty), opt_s(&h.evar), h.to.coq())
+        }));
+        let w = match &self.wher {
+            Some(e) => format!("(Some {})", e.coq()),
+            None => "None".into(),
+        };
+        let ret = match &self.ret {
+            Ret::Plain(items, d) => format!("(RPlain {} {d})", coq::list(items.iter().map(|e| e.coq()))),
+            Ret::Agg(keys, aggs) => format!(
+                "(RAgg {} {})",
+                coq::list(keys.iter().map(|e| e.coq())),
+                coq::list(aggs.iter().map(|a| {
+                    let f = match a.f {
+                        AggFn::Count => "ACountNN",
+                        AggFn::Sum => "ASum",
+                        AggFn::Avg => "AAvg",
+                        AggFn::Min => "AMin",
+                        AggFn::Max => "AMax",
+                        AggFn::Collect => "ACollect",
+                    };
+                    format!("mkAgg {f} (Some {}) false None", a.arg.coq())
+                }))
+            ),
+        };
+        let ord = coq::list(self.order.iter().map(|(e, d)| format!("OEnv {} {d}", e.coq())));
+        let on = |o: &Option<usize>| match o {
+            Some(n) => format!("(Some {n}%nat)"),
+            None => "None".into(),
+        };
+        format!(
+            "(mkQ (mkPat {} {hops}) {w} {ret} {ord} {} {})",
+            self.start.coq(),
+            on(&self.skip),
+            on(&self.limit)
+        )
+    }
+    fn pattern_text(&self) -> String {
+        let mut s = self.start.text();
+        for h in &self.hops {
+            let mut inner = String::new();
+            if let Some(r) = &h.evar {
+                inner.push_str(r);
+            }
+            if let Some(t) = &h.ty {
+                let _ = write!(inner, ":{t}");
+            }
+            match &h.len {
+                HLen::One => {}
+                HLen::Var(a, Some(b)) => {
+                    let _ = write!(inner, "*{a}..{b}");
+                }
+                HLen::Var(1, None) => inner.push('*'),
+                HLen::Var(a, None) => {
+                    let _ = write!(inner, "*{a}..");
+                }
+            }
+            let (l, r) = match h.dir {
+                Dir::Out => ("-", "->"),
+                Dir::In => ("<-", "-"),
+                Dir::Both => ("-", "-"),
+            };
+            let _ = write!(s, "{l}[{inner}]{r}{}", h.to.text());
+        }
+        s
+    }
+    /// GQL and Cypher share this text (ORDER BY on expressions over the pattern variables)
+    fn gql_text(&self) -> String {
+        let mut s = format!("MATCH {}", self.pattern_text());
+        if let Some(w) = &self.wher {
+            let _ = write!(s, " WHERE {}", w.text());
+        }
+        s.push_str(" RETURN ");
+        match &self.ret {
+            Ret::Plain(items, d) => {
+                if *d {
+                    s.push_str("DISTINCT ");
+                }
+                s.push_str(&items.iter().map(|e| e.text()).collect::<Vec<_>>().join(", "));
+            }
+            Ret::Agg(keys, aggs) => {
+                let mut parts: Vec<String> = keys.iter().map(|e| e.text()).collect();
+                for a in aggs {
+                    let f = match a.f {
+                        AggFn::Count => "count",
+                        AggFn::Sum => "sum",
+                        AggFn::Avg => "avg",
+                        AggFn::Min => "min",
+                        AggFn::Max => "max",
+                        AggFn::Collect => "collect",
+                    };
+                    parts.push(format!("{f}({})", a.arg.text()));
+                }
+                s.push_str(&parts.join(", "));
+            }
+        }
+        if !self.order.is_empty() {
+            let ks: Vec<String> =
+                self.order.iter().map(|(e, d)| format!("{}{}", e.text(), if *d { " DESC" } else { "" })).collect();
+            let _ = write!(s, " ORDER BY {}", ks.join(", "));
+        }
+        if let Some(n) = self.skip {
+            let _ = write!(s, " SKIP {n}");
+        }
+        if let Some(n) = self.limit {
+            let _ = write!(s, " LIMIT {n}");
+        }
+        s
+    }
+    fn vars_node(&self) -> Vec<String> {
+        let mut v = vec![self.start.var.clone()];
+        v.extend(self.hops.iter().map(|h| h.to.var.clone()));
+        v
+    }
+    fn has_expand(&self) -> bool {
+        !self.hops.is_empty()
+    }
+}
+
+// ------------------------------------------------------------------------------------------ execution
+#[derive(Clone, Copy, Debug, PartialEq)]
+enum Lang {
+    Gql,
+    Cypher,
+    Gremlin,
+    Graphql,
+}
+impl Lang {
+    fn name(self) -> &'static str {
+        match self {
+            Lang::Gql => "gql",
+            Lang::Cypher => "cypher",
+            Lang::Gremlin => "gremlin",
+            Lang::Graphql => "graphql",
+        }
+    }
+    fn coq(self) -> &'static str {
+        match self {
+            Lang::Gql => "LGql",
+            Lang::Cypher => "LCypher",
+            Lang::Gremlin => "LGremlin",
+            Lang::Graphql => "LGraphql",
+        }
+    }
+}
+#[derive(Clone)]
+struct Obs {
+    rows: Option<(Vec<String>, Vec<Vec<Value>>)>,
+    err: String,
+}
+impl Obs {
+    fn coq(&self) -> Option<String> {
+        match &self.rows {
+            None => Some("ObsErr".into()),
+            Some((cols, rows)) => {
+                let mut rs = vec![];
+                for r in rows {
+                    let mut vs = vec![];
+                    for v in r {
+                        vs.push(value_coq(v)?);
+                    }
+                    rs.push(coq::list(vs));
+                }
+                Some(format!("(ObsRows {} {})", coq::list(cols.iter().map(|c| cs(c))), coq::list(rs)))
+            }
+        }
+    }
+    fn brief(&self) -> String {
+        match &self.rows {
+            None => format!("ERR {}", self.err.lines().next().unwrap_or("")),
+            Some((c, r)) => {
+                let mut s = format!("{:?} {} rows:", c, r.len());
+                for row in r.iter().take(12) {
+                    let _ = write!(s, " {:?}", row);
+                }
+                s
+            }
+        }
+    }
+}
+/// translate -> bind -> optimize exactly as session.rs does on a cache miss
+fn compile(w: &World, lang: Lang, text: &str) -> Result<LogicalPlan, String> {
+    let r = catch(std::panic::AssertUnwindSafe(|| -> Result<LogicalPlan, String> {
+        let lp = match lang {
+            Lang::Gql => grafeo_engine::query::gql_translator::translate(text),
+            Lang::Cypher => grafeo_engine::query::cypher_translator::translate(text),
+            Lang::Gremlin => grafeo_engine::query::gremlin_translator::translate(text),
+            Lang::Graphql => grafeo_engine::query::graphql_translator::translate(text),
+        }
+        .map_err(|e| e.to_string())?;
+        let mut b = Binder::new();
+        b.bind(&lp).map_err(|e| e.to_string())?;
+        Optimizer::from_store(w.db.store()).optimize(lp).map_err(|e| e.to_string())
+    }));
+    match r {
+        Ok(x) => x,
+        Err(p) => Err(format!("PANIC {p}")),
+    }
+}
+fn execute(w: &World, lang: Lang, text: &str) -> Obs {
+    let s = w.db.session();
+    let r = catch(std::panic::AssertUnwindSafe(|| match lang {
+        Lang::Gql => s.execute(text),
+        Lang::Cypher => s.execute_cypher(text),
+        Lang::Gremlin => s.execute_gremlin(text),
+        Lang::Graphql => s.execute_graphql(text),
+    }));
+    match r {
+        Ok(Ok(q)) => Obs { rows: Some((q.columns.clone(), q.rows.clone())), err: String::new() },
+        Ok(Err(e)) => Obs { rows: None, err: e.to_string() },
+        Err(p) => Obs { rows: None, err: format!("PANIC {p}") },
+    }
+}
+fn opts_coq(w: &World) -> String {
+    format!("(opts_engine {})", w.factorized)
+}
+
+/// which physical paths the planner takes for this plan on this store (for the evidence tags)
+fn path_tags(w: &World, p: &LogicalOperator, tags: &mut Vec<String>) {
+    fn chain_len(p: &LogicalOperator) -> usize {
+        match p {
+            LogicalOperator::Expand(x) if x.min_hops == 1 && x.max_hops == Some(1) => 1 + chain_len(&x.input),
+            _ => 0,
+        }
+    }
+    fn eq_keys(e: &LogicalExpression, x: &str, out: &mut Vec<String>) {
+        if let LogicalExpression::Binary { left, op, right } = e {
+            match op {
+                BinaryOp::And => {
+                    eq_keys(left, x, out);
+                    eq_keys(right, x, out);
+                }
+                BinaryOp::Eq => match (left.as_ref(), right.as_ref()) {
+                    (LogicalExpression::Property { variable, property }, LogicalExpression::Literal(_))
+                    | (LogicalExpression::Literal(_), LogicalExpression::Property { variable, property })
+                        if variable == x =>
+                    {
+                        out.push(property.clone())
+                    }
+                    _ => {}
+                },
+                _ => {}
+            }
+        }
+    }
+    fn is_range(e: &LogicalExpression) -> bool {
+        match e {
+            LogicalExpression::Binary { left, op, right } => match op {
+                BinaryOp::Lt | BinaryOp::Le | BinaryOp::Gt | BinaryOp::Ge => matches!(
+                    (left.as_ref(), right.as_ref()),
+                    (LogicalExpression::Property { .. }, LogicalExpression::Literal(_))
+                        | (LogicalExpression::Literal(_), LogicalExpression::Property { .. })
+                ),
+                BinaryOp::And => is_range(left) && is_range(right),
+                _ => false,
+            },
+            _ => false,
+        }
+    }
+    match p {
+        LogicalOperator::Expand(x) => {
+            let c = chain_len(p);
+            if c >= 2 {
+                tags.push(if w.factorized { "path:factorized-chain".into() } else { "path:flat-chain".into() });
+            } else if c == 0 {
+                tags.push("path:varlen-expand".into());
+            } else {
+                tags.push("path:expand".into());
+            }
+            let mut q: &LogicalOperator = p;
+            while let LogicalOperator::Expand(y) = q {
+                if !(y.min_hops == 1 && y.max_hops == Some(1)) {
+                    break;
+                }
+                q = &y.input;
+            }
+            if c >= 2 {
+                path_tags(w, q, tags);
+            } else {
+                path_tags(w, &x.input, tags);
+            }
+        }
+        LogicalOperator::Filter(f) => {
+            if let LogicalOperator::NodeScan(s) = f.input.as_ref() {
+                let mut ks = vec![];
+                eq_keys(&f.predicate, &s.variable, &mut ks);
+                if ks.iter().any(|k| w.indexed.contains(k)) {
+                    tags.push("path:index".into());
+                } else if is_range(&f.predicate) {
+                    tags.push("path:range".into());
+                } else {
+                    tags.push("path:scan-filter".into());
+                }
+            } else {
+                tags.push("path:filter".into());
+            }
+            path_tags(w, &f.input, tags);
+        }
+        LogicalOperator::Aggregate(a) => {
+            if w.factorized && a.group_by.is_empty() && chain_len(&a.input) >= 2 {
+                tags.push("path:factorized-aggregate?".into());
+            }
+            path_tags(w, &a.input, tags);
+        }
+        LogicalOperator::Return(r) => path_tags(w, &r.input, tags),
+        LogicalOperator::Project(r) => path_tags(w, &r.input, tags),
+        LogicalOperator::Sort(r) => path_tags(w, &r.input, tags),
+        LogicalOperator::Skip(r) => path_tags(w, &r.input, tags),
+        LogicalOperator::Limit(r) => path_tags(w, &r.input, tags),
+        LogicalOperator::Distinct(r) => path_tags(w, &r.input, tags),
+        _ => {}
+    }
+}
+
+// ------------------------------------------------------------------------------------------ emission
+#[derive(Default)]
+struct Rec {
+    k: String,
+    input: String,
+    coq: Option<String>,
+    show: Option<String>,
+    orc: Option<String>,
+    ks: Vec<(String, String)>,
+    nt: bool,
+    imp: String,
+    tags: Vec<String>,
+    msg: String,
+}
+struct Sink {
+    w: std::io::BufWriter<Box<dyn std::io::Write>>,
+    n: usize,
+}
+impl Sink {
+    fn emit(&mut self, r: &Rec) {
+        let mut s = String::new();
+        let _ = write!(s, "{{\"k\":\"{}\",\"in\":\"{}\"", json_escape(&r.k), json_escape(&r.input));
+        if let Some(q) = &r.coq {
+            let _ = write!(s, ",\"coq\":\"{}\"", json_escape(q));
+        }
+        if let Some(q) = &r.show {
+            let _ = write!(s, ",\"show\":\"{}\"", json_escape(q));
+        }
+        if let Some(q) = &r.orc {
+            let _ = write!(s, ",\"orc\":\"{}\"", json_escape(q));
+        }
+        let _ = write!(s, ",\"oracle\":\"na\"");
+        if !r.msg.is_empty() {
+            let _ = write!(s, ",\"msg\":\"{}\"", json_escape(&r.msg));
+        }
+        s.push_str(",\"ks\":[");
+        for (i, (id, t)) in r.ks.iter().enumerate() {
+            if i > 0 {
+                s.push(',');
+            }
+            let _ = write!(s, "[\"{}\",\"{}\"]", json_escape(id), json_escape(t));
+        }
+        s.push(']');
+        let _ = write!(s, ",\"nt\":{},\"impl\":\"{}\",\"tags\":[", r.nt, json_escape(&r.imp));
+        for (i, t) in r.tags.iter().enumerate() {
+            if i > 0 {
+                s.push(',');
+            }
+            let _ = write!(s, "\"{}\"", json_escape(t));
+        }
+        s.push_str("]}");
+        writeln!(self.w, "{}", s).expect("write");
+        self.n += 1;
+    }
+}
+
+fn c08_ks(st: &str, q: &str, lang: Lang, plan: Option<&str>) -> Vec<(String, String)> {
+    let mut ks = vec![
+        ("C08-K1".to_string(), format!("k1_unbounded {q}")),
+        ("C08-K2".to_string(), format!("k2_type_case {st} {q}")),
+        ("C08-K3".to_string(), format!("k3_both_selfloop {st} {q}")),
+        ("C08-K4".to_string(), format!("k4_zero_hops {q}")),
+        ("C08-K5".to_string(), format!("k5_return_distinct {q}")),
+        ("C08-K6".to_string(), format!("k6_gql_limit_first {} {q}", lang.coq())),
+        ("C08-K7".to_string(), format!("k7_multi_label {q}")),
+        ("C08-K10".to_string(), format!("k10_edge_prop_materialised {q}")),
+    ];
+    if let Some(p) = plan {
+        ks.push(("C08-K8".to_string(), format!("k_c10_any {st} {p}")));
+    }
+    ks
+}
+fn c10_ks(st: &str, plan: &str) -> Vec<(String, String)> {
+    vec![
+        ("C10-K1".to_string(), format!("k_zone_edge {st} {plan}")),
+        ("C10-K2".to_string(), format!("k_index_residual {st} {plan}")),
+        ("C10-K3".to_string(), format!("k_index_num {st} {plan}")),
+        ("C10-K4".to_string(), format!("k_range_num {st} {plan}")),
+        ("C10-K5".to_string(), format!("k_fact_missing_level {st} {plan}")),
+        ("C10-K6".to_string(), format!("k_fact_type_case {st} {plan}")),
+    ]
+}
+
+/// one execution of `text` on `w`: correspondence record (+ the C08 oracle when `q` is given)
+struct Run {
+    obs: Obs,
+    obs_coq: Option<String>,
+    plan_coq: Option<String>,
+    st_coq: String,
+    tags: Vec<String>,
+}
+fn run_one(w: &World, lang: Lang, text: &str, cached_plan: Option<&LogicalPlan>) -> (Run, Option<LogicalPlan>) {
+    let st_coq = w.store_coq();
+    let compiled = match cached_plan {
+        Some(p) => Ok(p.clone()),
+        None => compile(w, lang, text),
+    };
+    let obs = execute(w, lang, text);
+    let mut tags = vec![format!("lang:{}", lang.name())];
+    let plan_coq = match &compiled {
+        Ok(p) => {
+            path_tags(w, &p.root, &mut tags);
+            let c = plan_coq(&p.root);
+            if c.is_none() {
+                tags.push("plan:outside-modelled-fragment".into());
+            }
+            c
+        }
+        Err(_) => {
+            tags.push("front-end:rejected".into());
+            None
+        }
+    };
+    if obs.rows.is_none() && compiled.is_ok() {
+        tags.push("engine:error".into());
+    }
+    let obs_coq = obs.coq();
+    (Run { obs, obs_coq, plan_coq, st_coq, tags }, compiled.ok())
 }
